@@ -94,14 +94,37 @@ func normalForm(repo string, pick func(name string) bool) (*nfResult, error) {
 	inlinedSites := map[string]int{}
 	kept := map[string]string{}
 	giveUp := map[string]bool{}
-	for iter := 0; iter < 60; iter++ {
+	counter, origSize := 0, 0
+	for iter := 0; iter < 25; iter++ {
 		p, fset, err := loadForNF(repo, res.overlay)
 		if err != nil {
 			return nil, err
 		}
-		nf := &nfPass{p: p, fset: fset, info: p.TypesInfo, files: map[string][]byte{}, n: iter * 100}
+		nf := &nfPass{p: p, fset: fset, info: p.TypesInfo, files: map[string][]byte{}, n: counter}
 		nf.readFiles(res.overlay)
-		progress := false
+		if origSize == 0 {
+			for _, b := range nf.files {
+				origSize += len(b)
+			}
+		}
+		size := 0
+		for _, b := range nf.files {
+			size += len(b)
+		}
+		if size > 4*origSize {
+			return nil, fmt.Errorf("normal form: the rewritten package grew from %d to %d bytes; given up", origSize, size)
+		}
+		// one round: every candidate's call sites are rewritten together as far as the edits do not touch
+		// each other; what is left waits for the next round (positions and types are re-read then)
+		type plan struct {
+			cand      *nfCand
+			edits     []textEdit
+			remaining int
+			why       string
+			dropped   int
+			noDelete  bool
+		}
+		var plans []*plan
 		for _, cand := range nf.candidates(pick, giveUp, kept) {
 			edits, nsites, remaining, why := nf.inlineAll(cand)
 			if nsites == 0 {
@@ -111,21 +134,107 @@ func normalForm(repo string, pick func(name string) bool) (*nfResult, error) {
 				}
 				continue
 			}
-			if remaining == 0 {
-				edits = append(edits, nf.deleteDecl(cand))
-			} else if why != "" {
-				kept[cand.name] = why
-			}
-			if err := nf.apply(edits, res.overlay); err != nil {
-				return nil, fmt.Errorf("inlining %s: %w", cand.name, err)
-			}
-			inlinedSites[cand.name] += nsites
-			progress = true
-			break // positions are stale: reload
+			plans = append(plans, &plan{cand: cand, edits: edits, remaining: remaining, why: why})
 		}
-		if !progress {
+		if len(plans) == 0 {
 			break
 		}
+		declRange := func(pl *plan) (string, int, int) {
+			d := nf.deleteDecl(pl.cand)
+			return d.file, d.start, d.end
+		}
+		// a call site inside the declaration of a helper that disappears this round is dropped (its copies
+		// at that helper's call sites are rewritten next round)
+		for _, pl := range plans {
+			var keep []textEdit
+			for _, e := range pl.edits {
+				inside := false
+				for _, other := range plans {
+					if other == pl || other.remaining != 0 {
+						continue
+					}
+					f, a, b := declRange(other)
+					if f == e.file && a <= e.start && e.end <= b {
+						inside = true
+					}
+				}
+				if inside {
+					pl.dropped++
+				} else {
+					keep = append(keep, e)
+				}
+			}
+			pl.edits = keep
+		}
+		// of two edits that touch each other the outer one stays
+		type owned struct {
+			e  textEdit
+			pl *plan
+		}
+		var all []owned
+		for _, pl := range plans {
+			for _, e := range pl.edits {
+				all = append(all, owned{e, pl})
+			}
+		}
+		sort.Slice(all, func(i, j int) bool {
+			if all[i].e.file != all[j].e.file {
+				return all[i].e.file < all[j].e.file
+			}
+			if all[i].e.start != all[j].e.start {
+				return all[i].e.start < all[j].e.start
+			}
+			return all[i].e.end > all[j].e.end
+		})
+		var accepted []owned
+		for _, o := range all {
+			if n := len(accepted); n > 0 && accepted[n-1].e.file == o.e.file && o.e.start < accepted[n-1].e.end {
+				o.pl.dropped++
+				continue
+			}
+			accepted = append(accepted, o)
+		}
+		// a helper whose body is copied this round keeps alive what that body calls
+		copied := map[*plan]bool{}
+		for _, o := range accepted {
+			copied[o.pl] = true
+		}
+		for pl := range copied {
+			ast.Inspect(pl.cand.decl.Body, func(n ast.Node) bool {
+				if id, ok := n.(*ast.Ident); ok {
+					for _, other := range plans {
+						if other != pl && nf.info.Uses[id] == types.Object(other.cand.obj) {
+							other.noDelete = true
+						}
+					}
+				}
+				return true
+			})
+		}
+		var edits []textEdit
+		counts := map[*plan]int{}
+		for _, o := range accepted {
+			edits = append(edits, o.e)
+			counts[o.pl]++
+		}
+		if len(edits) == 0 {
+			break
+		}
+		for _, pl := range plans {
+			if counts[pl] == 0 {
+				continue
+			}
+			if pl.remaining == 0 && pl.dropped == 0 && !pl.noDelete {
+				edits = append(edits, nf.deleteDecl(pl.cand))
+			} else if pl.why != "" {
+				kept[pl.cand.name] = pl.why
+			}
+			inlinedSites[pl.cand.name] += counts[pl]
+		}
+		if err := nf.apply(edits, res.overlay); err != nil {
+			return nil, fmt.Errorf("inlining: %w", err)
+		}
+		counter = nf.n
 	}
 	if len(inlinedSites) == 0 {
 		return res, nil
@@ -168,11 +277,15 @@ func loadForNF(repo string, overlay map[string][]byte) (*packages.Package, *toke
 	if len(pkgs) != 1 {
 		return nil, nil, fmt.Errorf("normal form: expected one package, got %d", len(pkgs))
 	}
-	if len(pkgs[0].Errors) > 0 {
-		var es []string
-		for _, e := range pkgs[0].Errors {
-			es = append(es, e.Error())
+	var es []string
+	for _, e := range pkgs[0].Errors {
+		// an import that the removal of a helper left unused is dropped at the end
+		if strings.Contains(e.Error(), "imported and not used") || strings.HasPrefix(e.Error(), "-: #") {
+			continue
 		}
+		es = append(es, e.Error())
+	}
+	if len(es) > 0 {
 		return nil, nil, fmt.Errorf("normal form: the rewritten package does not type-check:\n  %s", strings.Join(es, "\n  "))
 	}
 	return pkgs[0], fset, nil
@@ -184,6 +297,8 @@ type nfPass struct {
 	info  *types.Info
 	files map[string][]byte
 	n     int
+	// imports to add: file -> package path -> local name
+	addImports map[string]map[string]string
 }
 
 type nfCand struct {
@@ -257,6 +372,58 @@ func (nf *nfPass) candidates(pick func(string) bool, giveUp map[string]bool, kep
 			out = append(out, &nfCand{name, obj, fd, f})
 		}
 	}
+	// helpers that reach themselves through other candidates are left alone: inlining one into the other
+	// would never end
+	idx := map[*types.Func]int{}
+	for i, c := range out {
+		idx[c.obj] = i
+	}
+	adj := make([][]int, len(out))
+	for i, c := range out {
+		seen := map[int]bool{}
+		ast.Inspect(c.decl.Body, func(n ast.Node) bool {
+			if id, ok := n.(*ast.Ident); ok {
+				if f, ok := nf.info.Uses[id].(*types.Func); ok {
+					if j, ok := idx[f]; ok && !seen[j] {
+						seen[j] = true
+						adj[i] = append(adj[i], j)
+					}
+				}
+			}
+			return true
+		})
+	}
+	inCycle := make([]bool, len(out))
+	for i := range out {
+		// does i reach i?
+		vis := map[int]bool{}
+		var dfs func(k int) bool
+		dfs = func(k int) bool {
+			for _, j := range adj[k] {
+				if j == i {
+					return true
+				}
+				if !vis[j] {
+					vis[j] = true
+					if dfs(j) {
+						return true
+					}
+				}
+			}
+			return false
+		}
+		inCycle[i] = dfs(i)
+	}
+	var acyclic []*nfCand
+	for i, c := range out {
+		if inCycle[i] {
+			giveUp[c.name] = true
+			kept[c.name] = "reaches itself through other helpers"
+			continue
+		}
+		acyclic = append(acyclic, c)
+	}
+	out = acyclic
 	sort.Slice(out, func(i, j int) bool { return out[i].name < out[j].name })
 	return out
 }
@@ -746,7 +913,17 @@ func (nf *nfPass) inlinedBody(cand *nfCand, s nfSite, id int, rnames []string, q
 			// the call site's file must know the package under the same name
 			_, found := scope.LookupParent(idn.Name, call.Pos())
 			fpn, _ := found.(*types.PkgName)
-			if fpn == nil || fpn.Imported() != o.Imported() {
+			switch {
+			case found == nil:
+				// the call site's file does not import the package: the import is added
+				if nf.addImports == nil {
+					nf.addImports = map[string]map[string]string{}
+				}
+				if nf.addImports[file] == nil {
+					nf.addImports[file] = map[string]string{}
+				}
+				nf.addImports[file][o.Imported().Path()] = idn.Name
+			case fpn == nil || fpn.Imported() != o.Imported():
 				bad = "the body uses package " + o.Imported().Path() + " as " + idn.Name + ", which means something else at the call site"
 			}
 		default:
@@ -905,6 +1082,24 @@ func (nf *nfPass) apply(edits []textEdit, overlay map[string][]byte) error {
 	for _, e := range edits {
 		byFile[e.file] = append(byFile[e.file], e)
 	}
+	for _, f := range nf.p.Syntax {
+		file := nf.fileName(f)
+		if len(byFile[file]) == 0 || len(nf.addImports[file]) == 0 {
+			continue
+		}
+		var paths []string
+		for p := range nf.addImports[file] {
+			paths = append(paths, p)
+		}
+		sort.Strings(paths)
+		txt := "\n"
+		for _, p := range paths {
+			name := nf.addImports[file][p]
+			txt += fmt.Sprintf("import %s %q\n", name, p)
+		}
+		at := nf.off(f.Name.End())
+		byFile[file] = append(byFile[file], textEdit{file, at, at, txt})
+	}
 	for file, es := range byFile {
 		sort.Slice(es, func(i, j int) bool { return es[i].start > es[j].start })
 		src := append([]byte(nil), nf.src(file)...)
@@ -937,6 +1132,9 @@ func unusedImports(repo string, overlay map[string][]byte) (map[string][]string,
 	out := map[string][]string{}
 	for _, p := range pkgs {
 		for _, e := range p.Errors {
+			if strings.HasPrefix(e.Error(), "-: #") {
+				continue // the compiler's summary of the same errors, with the overlay's temporary file names
+			}
 			m := unusedImportRe.FindStringSubmatch(e.Error())
 			if m == nil {
 				return nil, fmt.Errorf("normal form: the rewritten package does not type-check: %s", e.Error())
@@ -963,8 +1161,16 @@ func dropImports(repo string, overlay map[string][]byte, unused map[string][]str
 			drop := false
 			t := strings.TrimSpace(string(ln))
 			for _, p := range paths {
-				if t == `"`+p+`"` || t == `import "`+p+`"` {
+				q := `"` + p + `"`
+				if t == q || t == "import "+q {
 					drop = true
+				}
+				// with a local name: `name "path"` inside a group, `import name "path"` alone
+				if strings.HasSuffix(t, " "+q) {
+					f := strings.Fields(t)
+					if len(f) == 2 || (len(f) == 3 && f[0] == "import") {
+						drop = true
+					}
 				}
 			}
 			if !drop {
